@@ -13,7 +13,11 @@
 //   - getStdv() returns standard deviations (sqrt of the diagonal, negative variances clamped to 0, KrigingCalcul.cpp
 //     _needStdv) -> compared through squares; getVarianceZstar() = lambda^T Sigma lambda.
 //   - setColCokUnique: "The argument 'Zp' must be corrected by the mean of the variables for ... Simple Kriging".
-// Tolerance: 1e3 * eps * kappa * scale (kappa of the complete kriging matrix from ref::LU; > 1e9 skipped).
+// Tolerance: 1e3 * eps * kappa * scale, kappa of the complete kriging matrix from ref::LU. Systems with kappa > 1e7 are
+// skipped as ill-conditioned: KrigingCalcul multiplies explicit inverses (Sigma^-1, (X^T Sigma^-1 X)^-1, Schur
+// complements), whose round-off grows like eps*kappa(Sigma)*kappa(Schur), i.e. faster than the eps*kappa of one solve
+// of the full system (calibration: at kappa = 7e8 the dual form was 2.3 tolerances away from the long-double
+// reference, at kappa <= 1e7 the worst ratio seen is < 0.05).
 #include "common/vh.hpp"
 #include "common/ref_linalg.hpp"
 #include "common/c04_gen.hpp"
@@ -32,6 +36,8 @@ using ref::LD;
 // KrigingCalcul::_needZstar dereferences '_Means' unconditionally in the SK branch: setData(&Z, nullptr) ("Means ...
 // (optional)") followed by getEstimation() in simple kriging is a null dereference. The generator visits that input
 // class rarely; set to true to keep away from it.
+static const double KAPPA_MAX = 1e7;
+
 static const bool AVOID_KRIBAYES_SELECTION = false || getenv("C04_DEV_AVOID2") != nullptr; // env: developer runs only
 static const bool AVOID_CALCUL_NULL_MEANS = false || getenv("C04_DEV_AVOID") != nullptr; // env: developer runs only
 
@@ -169,10 +175,12 @@ static DbSpec onePoint(const Pts& p, int i)
   return t;
 }
 
+static double G_ZS = 3., G_SILL = 1.; // natural magnitudes of the current case (data spread, total sill)
+
 static void cmp3(Ctx& c, const std::string& pfx, const std::string& key, const VectorDouble& est, const VectorDouble& sd,
                  const VectorDouble& vz, const std::vector<double>& wEst, const std::vector<double>& wVar,
                  const std::vector<double>& wVz, double tolE, double tolV, const std::string& what, const std::string& against,
-                 const std::string& estKey = "")
+                 const std::string& estKey = "", double zscale = G_ZS, double vscale = G_SILL)
 {
   size_t q = wEst.size();
   if (est.size() != q)
@@ -183,16 +191,16 @@ static void cmp3(Ctx& c, const std::string& pfx, const std::string& key, const V
   for (size_t j = 0; j < q; j++)
   {
     std::string w = what + fmt(" rhs=%zu vs=%s", j, against.c_str());
-    c.close(pfx + "-estim-" + against, estKey.empty() ? key + ":estim" : estKey, est[j], wEst[j], tolE, w);
+    closeRel(c, pfx + "-estim-" + against, estKey.empty() ? key + ":estim" : estKey, est[j], wEst[j], tolE, zscale, w);
     if (!wVar.empty() && sd.size() == q)
     {
       double wv = std::max(wVar[j], 0.0); // both sides clamp negative variances to 0 before the square root
-      c.close(pfx + "-var-" + against, key + ":stdev", sd[j] * sd[j], wv, tolV, w + fmt(" sd=%.10g", sd[j]));
+      closeRel(c, pfx + "-var-" + against, key + ":stdev", sd[j] * sd[j], wv, tolV, vscale, w + fmt(" sd=%.10g", sd[j]));
     }
     else if (!wVar.empty())
       c.check(pfx + "-var-" + against, key + ":stdev:size", false, 1, 0, w + fmt(" getStdv size %zu", sd.size()));
     if (!wVz.empty() && vz.size() == q)
-      c.close(pfx + "-varz-" + against, key + ":varz", vz[j], wVz[j], tolV, w);
+      closeRel(c, pfx + "-varz-" + against, key + ":varz", vz[j], wVz[j], tolV, vscale, w);
     else if (!wVz.empty())
       c.check(pfx + "-varz-" + against, key + ":varz:size", false, 1, 0, w + fmt(" getVarianceZstar size %zu", vz.size()));
   }
@@ -231,8 +239,8 @@ static void run_case(Rng& r, Ctx& c)
   genValues(r, data, nvar, hetero, L);
   int selMode = r.coin(0.4) ? 1 : 0;
   // kribayes() with a selection on the data reads its neighbourhood vector out of range (KrigingSystem::
-  // _bayesPreCalculations indexes _nbgh by the absolute sample rank): finding, see report; visited in 1 Bayesian case out of 4
-  if (form == 2 && (AVOID_KRIBAYES_SELECTION || !r.coin(0.25))) selMode = 0;
+  // _bayesPreCalculations indexes _nbgh by the absolute sample rank): finding, see report; visited in 1 Bayesian case out of 8
+  if (form == 2 && (AVOID_KRIBAYES_SELECTION || !r.coin(0.125))) selMode = 0;
   genSel(r, data, selMode);
   c.setSig(fmt("calcul:%s:ndim=%d:nvar=%d:%s:%s:het=%d:sel=%d", FORM[form], ndim, nvar, ms.sig().c_str(), drift.c_str(), hetero, selMode));
   c.puts("form", FORM[form]);
@@ -269,6 +277,8 @@ static void run_case(Rng& r, Ctx& c)
   if (neq <= 0 || (int)Z.size() != neq) { c.truth("kc-setup", "C04:calcul:setup", false, fmt("neq=%d Z=%zu", neq, Z.size())); return; }
   std::string what0 = fmt("form=%s n=%d neq=%d nvar=%d drift=%s", FORM[form], n, neq, nvar, drift.c_str());
   double sill = ms.maxSill();
+  G_ZS   = zs;
+  G_SILL = sill;
 
   // ================================================================================================================
   if (form == 0 || form == 1 || form == 2)
@@ -304,7 +314,7 @@ static void run_case(Rng& r, Ctx& c)
       std::vector<double> addMean(nvar, 0.0);
       if (order < 0) addMean = ms.means;
       RefSol R = refSolve(Sigma, order >= 0 ? &X : nullptr, Sigma0, order >= 0 ? &X0 : nullptr, Sigma00, Z, addMean);
-      if (!R.ok || !(R.kappa < 1e9)) { c.skip("illcond"); continue; }
+      if (!R.ok || !(R.kappa < KAPPA_MAX)) { c.skip("illcond"); continue; }
       double tolE = 1e3 * EPS * R.kappa * zs, tolV = 1e3 * EPS * R.kappa * sill;
       std::string what = what0 + fmt(" target=%d kappa=%.3g reuse=%d", t, R.kappa, (int)reuse);
 
@@ -333,8 +343,10 @@ static void run_case(Rng& r, Ctx& c)
       std::string pfx    = std::string("kc-") + FORM[form] + ((order < 0 && nonzeroMeans) ? "-skmean" : "");
       if (form == 2)
       {
+        // own oracle family per drift order: kribayes() with a non-constant drift is a finding of its own (see report)
+        pfx += "-" + drift;
         RefSol RB = refBayes(Sigma, X, Sigma0, X0, Sigma00, Z, pm, pc);
-        if (!RB.ok || !(RB.kappa < 1e9)) { c.skip("illcond"); continue; }
+        if (!RB.ok || !(RB.kappa < KAPPA_MAX)) { c.skip("illcond"); continue; }
         tolE = 1e3 * EPS * std::max(R.kappa, RB.kappa) * zs;
         tolV = 1e3 * EPS * std::max(R.kappa, RB.kappa) * sill;
         cmp3(c, pfx, key, est, sd, VectorDouble(), RB.est, RB.var, {}, tolE, tolV * 10, what, "ref");
@@ -343,8 +355,8 @@ static void run_case(Rng& r, Ctx& c)
         StdOut S = stdKriging(data, tg, ms, true, pm, pc);
         if (S.rc == 0 && S.est.size() == 1)
         {
-          c.close("kribayes-estim-ref", std::string("C04:kribayes-vs-ref:") + drift + ":estim", S.est[0], RB.est[0], tolE, what);
-          c.close("kribayes-var-ref", std::string("C04:kribayes-vs-ref:") + drift + ":stdev", S.sd[0] * S.sd[0], std::max(RB.var[0], 0.), tolV * 10, what);
+          closeRel(c, "kribayes-" + drift + "-estim-ref", std::string("C04:kribayes-vs-ref:") + drift + ":estim", S.est[0], RB.est[0], tolE, zs, what);
+          closeRel(c, "kribayes-" + drift + "-var-ref", std::string("C04:kribayes-vs-ref:") + drift + ":stdev", S.sd[0] * S.sd[0], std::max(RB.var[0], 0.), tolV * 10, sill, what);
         }
         key += ":" + drift;
         if (!c.truth("kc-bayes-rc", key + ":kribayes-rc", S.rc == 0 && S.est.size() == (size_t)nvar, what)) continue;
@@ -418,7 +430,7 @@ static void run_case(Rng& r, Ctx& c)
     std::vector<double> addMean(nvar, 0.0);
     if (order < 0) addMean = ms.means;
     RefSol R = refSolve(SigmaP, order >= 0 ? &XP : nullptr, Sigma0P, order >= 0 ? &X0 : nullptr, Sigma00, ZP, addMean);
-    if (!R.ok || !(R.kappa < 1e9)) { c.skip("illcond"); return; }
+    if (!R.ok || !(R.kappa < KAPPA_MAX)) { c.skip("illcond"); return; }
     double tolE = 1e3 * EPS * R.kappa * zs, tolV = 1e3 * EPS * R.kappa * sill;
     std::string what = what0 + fmt(" ncck=%d kappa=%.3g", ncck, R.kappa);
 
@@ -431,7 +443,8 @@ static void run_case(Rng& r, Ctx& c)
     VectorDouble est = K.getEstimation(), sd = K.getStdv(), vz = K.getVarianceZstar();
     std::string key    = std::string("C04:calcul:colcok:") + (order < 0 ? "sk" : "uk");
     std::string estKey = (order < 0 && nonzeroMeans) ? "C04:calcul:colcok:sk-nonzero-mean:estim" : "";
-    std::string pfx    = std::string("kc-colcok") + ((order < 0 && nonzeroMeans) ? "-skmean" : "");
+    // simple-kriging collocated variances are a finding of their own (see report): own oracle family
+    std::string pfx    = std::string("kc-colcok") + (order < 0 ? (nonzeroMeans ? "-skmean" : "-sk") : "");
     cmp3(c, pfx, key, est, sd, vz, R.est, R.var, R.varz, tolE, tolV, what, "ref", estKey);
     StdOut S = stdKriging(comp, tg, ms);
     if (S.rc != 0 || S.est.size() != (size_t)nvar || undef(S.est[0])) { c.skip("std-kriging-refused"); return; }
@@ -496,12 +509,12 @@ static void run_case(Rng& r, Ctx& c)
     std::vector<double> addMean(nvar, 0.0);
     if (order < 0) addMean = ms.means;
     RefSol Rall = refSolve(SigmaP, order >= 0 ? &XP : nullptr, Sigma0P, order >= 0 ? &X0P : nullptr, Sigma00, ZP, addMean);
-    if (!Rall.ok || !(Rall.kappa < 1e9)) { c.skip("illcond"); return; }
+    if (!Rall.ok || !(Rall.kappa < KAPPA_MAX)) { c.skip("illcond"); return; }
     // conditioning of the complete system (the one KrigingCalcul inverts)
     std::vector<double> zero(nvar, 0.0);
     MatrixRectangular S0full = model->evalCovMatrix(db.get(), tdb.get());
     RefSol Rfull = refSolve(Sigma, order >= 0 ? &X : nullptr, S0full, order >= 0 ? &X0P : nullptr, Sigma00, Z, zero);
-    if (!Rfull.ok || !(Rfull.kappa < 1e9)) { c.skip("illcond"); return; }
+    if (!Rfull.ok || !(Rfull.kappa < KAPPA_MAX)) { c.skip("illcond"); return; }
     double kap  = std::max(Rall.kappa, Rfull.kappa);
     double tolE = 1e3 * EPS * kap * zs, tolV = 1e3 * EPS * kap * sill;
     std::string what = what0 + fmt(" sample=%d nxvalid=%zu kappa=%.3g", i0, vx.size(), kap);
